@@ -1,6 +1,7 @@
 package main
 
 import (
+	"sync/atomic"
 	"errors"
 	"fmt"
 	"time"
@@ -41,7 +42,7 @@ type relistRun struct {
 	nchecks  int
 }
 
-var watchModes = []string{"healthy", "never-connects", "connect-hangs", "closes", "drops", "duplicates", "frames", "mixed"}
+var watchModes = []string{"healthy", "never-connects", "connect-hangs", "closes", "drops", "duplicates", "frames", "mixed", "replays", "overflow"}
 
 func runRelist(c *Ctx, r *relistRun) {
 	r.deadlock = sched.Bubble(c.T, func() {
@@ -50,18 +51,30 @@ func runRelist(c *Ctx, r *relistRun) {
 		srv.WatchBehave = func(n int, rv string) string {
 			switch r.mode {
 			case "never-connects":
-				return "error"
+				return fakeapi.ConnectError(n)
 			case "connect-hangs":
 				return "hang"
 			case "mixed":
-				return []string{"ok", "error", "ok", "hang", "ok"}[n%5]
+				return []string{"ok", fakeapi.ConnectError(n), "ok", "hang", "ok"}[n%5]
 			}
 			return "ok"
 		}
 		srv.Set(1, 1, labSets[1], 1)
 		srv.Set(1, 2, labSets[0], 1)
 		var ct *ctl
-		if r.filt != nil {
+		var slow atomic.Bool
+		if r.mode == "overflow" {
+			// a controller that is slow to apply events (its filter takes 20ms of
+			// virtual time per call while `slow` is set): bursts overflow the
+			// session's and the watcher's EventBufsiz buffers
+			r.filt = nil
+			ct = newCtlWith(srv, r.seed, r.level, r.period, filter.FN(func(metav1.Object) bool {
+				if slow.Load() {
+					time.Sleep(20 * time.Millisecond)
+				}
+				return true
+			}))
+		} else if r.filt != nil {
 			ct = newCtlWith(srv, r.seed, r.level, r.period, r.filt.Go())
 		} else {
 			ct = newCtlWith(srv, r.seed, r.level, r.period, nil)
@@ -127,6 +140,21 @@ func runRelist(c *Ctx, r *relistRun) {
 					srv.DropNext(s.K)
 				case 12:
 					srv.DupNext(s.K)
+				case 13:
+					srv.ReplayLast(s.K)
+				case 14:
+					// a burst the slow controller cannot keep up with
+					slow.Store(true)
+					before := m.count()
+					for k := 0; k < s.K; k++ {
+						srv.Set(1+k%2, 1+k%3, labSets[k%3], 1)
+					}
+					time.Sleep(time.Duration(s.K) * 25 * time.Millisecond)
+					slow.Store(false)
+					c.Stat("overflow_bursts", 1)
+					if got := m.count() - before; got < s.K {
+						c.Stat("overflow_changes_not_seen_as_events", s.K-got)
+					}
 				default:
 					applyStep(srv, s, &errs)
 				}
@@ -151,27 +179,39 @@ func runRelist(c *Ctx, r *relistRun) {
 			}
 			// the server is quiet now: after at most one further relist the cache
 			// equals the server's accepted objects
-			tq := time.Now()
-			deadline := tq.Add(4*(r.period+r.latency) + 10*time.Second)
-			converged := false
-			for time.Now().Before(deadline) {
-				time.Sleep(r.period / 4)
-				ct.pert.Barrier()
-				ls, _ := srv.Calls()
-				for _, l := range ls {
-					if !l.Start.Before(tq) && !l.End.IsZero() {
-						converged = true
+			waitRelist := func(what string) bool {
+				tq := time.Now()
+				deadline := tq.Add(4*(r.period+r.latency) + 10*time.Second)
+				for time.Now().Before(deadline) {
+					time.Sleep(r.period / 4)
+					ct.pert.Barrier()
+					ls, _ := srv.Calls()
+					for _, l := range ls {
+						if !l.Start.Before(tq) && !l.End.IsZero() {
+							return true
+						}
 					}
 				}
-				if converged {
-					break
-				}
+				r.problems = append(r.problems, fmt.Sprintf("phase %d: no list completed within %v after %s (relisting stopped)", pi, deadline.Sub(tq), what))
+				return false
 			}
-			if !converged {
-				r.problems = append(r.problems, fmt.Sprintf("phase %d: no list completed within %v after the server quiesced (relisting stopped)", pi, deadline.Sub(tq)))
+			if !waitRelist("the server quiesced") {
 				break
 			}
 			checkConverged(fmt.Sprintf("phase %d: after one relist on a quiet server (watch %s)", pi, r.mode), srv.Objects())
+			if r.mode == "replays" {
+				// the server is still quiet (the next list carries the same
+				// resourceVersion) and the stream replays old history: deletes of
+				// objects that exist again, creates of objects that are gone.  The
+				// next relist repairs whatever that did to the cache.
+				ct.pert.Barrier()
+				srv.ReplayLast(3)
+				c.Stat("stale_frames_on_quiet_server", srv.ReplayStale(2))
+				if !waitRelist("a replay on a quiet server") {
+					break
+				}
+				checkConverged(fmt.Sprintf("phase %d: after a replayed stretch of history and one relist on a quiet server", pi), srv.Objects())
+			}
 		}
 		_, bad, pre := m.snapshot()
 		for _, b := range bad {
@@ -211,6 +251,10 @@ func randomPhase(c *Ctx, mode string) []wstep {
 				steps = append(steps, wstep{Kind: 11, K: 1 + c.Rng.Intn(3)})
 			case "duplicates":
 				steps = append(steps, wstep{Kind: 12, K: 1 + c.Rng.Intn(3)})
+			case "replays":
+				steps = append(steps, wstep{Kind: 13, K: 1 + c.Rng.Intn(4)})
+			case "overflow":
+				steps = append(steps, wstep{Kind: 14, K: 220 + c.Rng.Intn(100)})
 			case "frames":
 				steps = append(steps, wstep{Kind: 4 + c.Rng.Intn(2)})
 			case "closes", "mixed":
@@ -239,6 +283,7 @@ func runC03(c *Ctx) {
 			for i := 0; i < 3; i++ {
 				r.phases = append(r.phases, randomPhase(c, mode))
 			}
+			c.Now(fmt.Sprintf("C03 run seed=%d mode=%s period=%v latency=%v level=%d", r.seed, r.mode, r.period, r.latency, r.level))
 			runRelist(c, r)
 			runs++
 			c.Rep.Evaluations++
@@ -296,7 +341,7 @@ func runC03(c *Ctx) {
 		}
 		c.Stat("stale_buffer_runs", 1)
 	}
-	c.Rep.Rule = "whole controller against the fake API server in a synctest bubble (virtual time): seeded random server histories over 2 namespaces x 3 names in three phases; refresh periods {2s,7s}; list latency {0, 1/2, 3/2} period; controller filters {none, Labels, Not(NSName)}; watch behaviour {healthy, never connects, connect hangs until cancelled, closes after every 2 events, drops events, duplicates events, status/bookmark frames, mixed}; 4 levels of logger-driven schedule perturbation. With the watch out of action: after every completed list cache = that list's accepted objects. After each phase: once a list that started after the server quiesced completes, cache = server's accepted objects, subscriber mirror = cache with well-formed strictly-newer events, no event before Ready, Close returns. Plus a targeted scenario: a watch event that the next list contradicts sits in the watcher's buffer while the controller is busy (slow filter) and the stream stalls; after that list cache = list. The converged cache is compared with the extracted model's relist_outcome. Non-trivial = run with >= 3 lists."
+	c.Rep.Rule = "whole controller against the fake API server in a synctest bubble (virtual time): seeded random server histories over 2 namespaces x 3 names in three phases; refresh periods {2s,7s}; list latency {0, 1/2, 3/2} period; controller filters {none, Labels, Not(NSName)}; watch behaviour {healthy, never connects, connect hangs until cancelled, closes after every 2 events, drops events, duplicates events, status/bookmark frames, mixed, replays old history (also on a quiet server, where the next list carries an unchanged resourceVersion), bursts of 220-320 changes against a slow controller (the session's and the watcher's buffers overflow and events are lost)}; 4 levels of logger-driven schedule perturbation. With the watch out of action: after every completed list cache = that list's accepted objects. After each phase: once a list that started after the server quiesced completes, cache = server's accepted objects, subscriber mirror = cache with well-formed strictly-newer events, no event before Ready, Close returns. Plus a targeted scenario: a watch event that the next list contradicts sits in the watcher's buffer while the controller is busy (slow filter) and the stream stalls; after that list cache = list. The converged cache is compared with the extracted model's relist_outcome. Non-trivial = run with >= 3 lists."
 	c.Rep.Stats["runs"] = runs
 }
 
@@ -348,10 +393,10 @@ func runFail(c *Ctx, r *failRun, seed int64, level int) {
 			switch r.watch {
 			case "errors":
 				if n%2 == 1 {
-					return "error"
+					return fakeapi.ConnectError(n)
 				}
 			case "always-errors":
-				return "error"
+				return fakeapi.ConnectError(n)
 			}
 			return "ok"
 		}
@@ -523,6 +568,7 @@ func runC14(c *Ctx) {
 					continue
 				}
 				r := &failRun{kind: kind, k: k, watch: w}
+				c.Now(fmt.Sprintf("C14 scenario kind=%d k=%d watch=%s busy=%v", r.kind, r.k, r.watch, r.busy))
 				runFail(c, r, c.Seed+int64(runs), runs%3)
 				emit(r, fmt.Sprintf("list failure kind=%d at list %d, watch=%s", kind, k, w))
 			}
@@ -533,6 +579,7 @@ func runC14(c *Ctx) {
 	for k := 2; k <= maxk; k++ {
 		for _, kind := range []fakeapi.ListKind{fakeapi.ListErr, fakeapi.ListNonObjects} {
 			r := &failRun{kind: kind, k: k, watch: "ok", busy: true}
+			c.Now(fmt.Sprintf("C14 scenario kind=%d k=%d watch=%s busy=%v", r.kind, r.k, r.watch, r.busy))
 			runFail(c, r, c.Seed+int64(runs), 0)
 			emit(r, fmt.Sprintf("list failure kind=%d at list %d while the controller is busy with list %d", kind, k, k-1))
 		}
@@ -540,6 +587,7 @@ func runC14(c *Ctx) {
 	for _, w := range []string{"ok", "errors", "always-errors", "closes", "frames"} {
 		for _, trig := range []string{"", "close", "cancel"} {
 			r := &failRun{k: 0, watch: w, trigger: trig}
+			c.Now(fmt.Sprintf("C14 scenario kind=%d k=%d watch=%s busy=%v", r.kind, r.k, r.watch, r.busy))
 			runFail(c, r, c.Seed+int64(runs), runs%3)
 			emit(r, fmt.Sprintf("no list failure, watch=%s, trigger=%q", w, trig))
 			if runs == 30 {
